@@ -9,7 +9,8 @@ from vmc.core import explore, progs, sandbox
 from vmc.core.report import Report
 
 PROP = "C18"
-ALPHABET = ['"', "'", "\\", "\n", "(", ")", "[", "]", "{", "}", "^", "`", ":", ";", ",", "=", ".", "a", "_", "0", "@", "|"]
+ALPHABET = ['"', "'", "\\", "\n", "(", ")", "[", "]", "{", "}", "^", "`", ":", ";", ",", "=", ".", "a", "_", "0", "@", "|",
+            "²", "₁"]   # code-page characters that str.isnumeric() / \\w accept but Python identifiers and int() do not
 SANCTIONED = re.compile(r"^(VAR_|_lambda_)[A-Za-z0-9_]*$")
 
 # (name, template, benign payload, payload lengths)
@@ -257,10 +258,25 @@ def _raw_shard(args):
     return part.data()
 
 
+def _dict_shard(codes):
+    """dictionary-compression codes inside a back-quoted string: the decompressed WORD is program-chosen text too"""
+    part = explore.Partial()
+    for code in codes:
+        for tail in ("", "+a)#", "a"):
+            prog = "`" + code + tail + "`"
+            judge(part, prog, ["`a" + tail + "`", "`aa`"], {"position": "string-dictionary-code", "payload": code + tail, "delivery": "literal"})
+    return part.data()
+
+
 def run(tier, seed):
     rep = Report(PROP, tier, seed, "exploration")
     quick = tier == "quick"
     vocabulary()
+    import vyxal.encoding as enc
+
+    comp = list(enc.compression)
+    codes = comp + [a + b for a in comp for b in (comp if not quick else comp[::4])]
+    explore.pmap(_dict_shard, explore.chunks(codes, 64), rep, seed)
     maxlen = 2 if quick else 3
     explore.pmap(_pos_shard, [([p], maxlen) for p in POSITIONS], rep, seed)
     rawlen = 3 if quick else 4
